@@ -31,12 +31,12 @@ pub const MIRRORS: &[(&[&str], &str, &str, &str)] = &[
     (&["C05", "C02"], "lexer/sequence.rs", "extension_group", "Lexer.Assemble"),
     // trivia and position bookkeeping
     (&["C13"], "lexer/common.rs", "skip_ws", "Lexer.Trivia"),
-    (&["C13"], "lexer/common.rs", "skip_ws_and_comments", "Lexer.Trivia"),
-    (&["C13"], "lexer/common.rs", "comment", "Lexer.Trivia"),
-    (&["C13"], "lexer/common.rs", "line_comment", "Lexer.Trivia"),
-    (&["C13"], "lexer/common.rs", "block_comment", "Lexer.Trivia"),
-    (&["C13"], "lexer/util.rs", "take_until_or", "Lexer.Trivia"),
-    (&["C13"], "lexer/util.rs", "take_until_unbalanced", "Lexer.Trivia"),
+    (&["C13", "C08"], "lexer/common.rs", "skip_ws_and_comments", "Lexer.Trivia"),
+    (&["C13", "C08"], "lexer/common.rs", "comment", "Lexer.Trivia"),
+    (&["C13", "C08"], "lexer/common.rs", "line_comment", "Lexer.Trivia"),
+    (&["C13", "C08"], "lexer/common.rs", "block_comment", "Lexer.Trivia"),
+    (&["C13", "C08"], "lexer/util.rs", "take_until_or", "Lexer.Trivia"),
+    (&["C13", "C08"], "lexer/util.rs", "take_until_unbalanced", "Lexer.Trivia"),
     (&["C17"], "input.rs", "slice", "Lexer.Input.slice"),
     (&["C17"], "input.rs", "reset_context", "Lexer.Input.resetContext"),
     (&["C17"], "input.rs", "take", "Lexer.Input"),
